@@ -5,13 +5,16 @@ package c18
 import (
 	"context"
 	"fmt"
+	"strings"
 	"sync"
+	"sync/atomic"
 	"testing"
 	"time"
 
 	"go.uber.org/goleak"
 
 	"github.com/form3tech-oss/f1/v2/internal/raterun"
+	"github.com/form3tech-oss/f1/v2/internal/verifh/hook"
 	"github.com/form3tech-oss/f1/v2/internal/verifh/kit"
 )
 
@@ -34,6 +37,110 @@ func TestC18(t *testing.T) {
 	for i := 0; i < n; i++ {
 		one(o, r)
 	}
+	if hooksSeen.Load() == 0 {
+		o.Fail("c18-hooks-missing", "no startFirst/startNext hook was ever passed: the instrumented sources are not in use")
+	}
+	o.Stat("schedule_hooks_seen", hooksSeen.Load())
+	for i := 0; i < kit.N(3, 20); i++ {
+		restartWhileBusy(o, r)
+	}
+}
+
+var hooksSeen atomic.Int64
+
+// installHooks logs the goroutine's schedule steps (sources instrumented from the working
+// tree: a hook precedes the calls of startFirst and startNext in the runner's loop).
+func installHooks(lg *logT, firsts *atomic.Int64) {
+	hook.Set(func(p string) {
+		if !strings.HasPrefix(p, "Runner.Start.go#") {
+			return
+		}
+		switch {
+		case strings.HasSuffix(p, ":r.schedules.startFirst"):
+			hooksSeen.Add(1)
+			lg.add("[7]")
+			if firsts != nil {
+				firsts.Add(1)
+			}
+		case strings.HasSuffix(p, ":r.schedules.startNext"):
+			hooksSeen.Add(1)
+			lg.add("[8]")
+		}
+	})
+}
+
+// A Restart issued while the function is executing is delivered once the goroutine is back at
+// its select: the restart channel holds it (capacity one), and every pass through the select
+// picks uniformly among the ready cases, so it is taken within a few ticks.
+func restartWhileBusy(o *kit.Out, r *kit.Rand) {
+	sched := []raterun.Schedule{{StartDelay: time.Millisecond, Frequency: 3 * time.Millisecond},
+		{StartDelay: time.Duration(r.Range(10, 25)) * time.Millisecond, Frequency: 7 * time.Millisecond}}
+	lg := &logT{}
+	var firsts atomic.Int64
+	installHooks(lg, &firsts)
+	defer hook.Set(nil)
+	holdAt := int(r.Range(1, 6))
+	held := make(chan struct{})
+	release := make(chan struct{})
+	var calls, after atomic.Int64
+	var restarted atomic.Bool
+	fn := func(f time.Duration) {
+		k := int64(0)
+		if f == sched[1].Frequency {
+			k = 1
+		}
+		lg.add(kit.List("1", kit.I(k)))
+		if restarted.Load() {
+			after.Add(1)
+		}
+		if int(calls.Add(1)) == holdAt {
+			close(held)
+			<-release
+		}
+		lg.add("[2]")
+	}
+	rn, err := raterun.New(fn, sched)
+	if err != nil {
+		o.Fail("c18-new", "raterun.New failed")
+		return
+	}
+	ctx, cancel := context.WithCancel(context.Background())
+	defer cancel()
+	lg.add("[0]")
+	rn.Start(ctx)
+	select {
+	case <-held:
+	case <-time.After(5 * time.Second):
+		o.Fail("c18-busy-script", "the function was never invoked")
+		rn.Stop()
+		return
+	}
+	lg.add("[3]")
+	done := make(chan struct{})
+	go func() { rn.Restart(); close(done) }()
+	select {
+	case <-done:
+	case <-time.After(2 * time.Second):
+		o.Fail("restart-blocked", "Restart did not return within 2s while the function was executing although the restart channel was empty")
+	}
+	restarted.Store(true)
+	close(release)
+	deadline := time.Now().Add(3 * time.Second)
+	for firsts.Load() == 0 && after.Load() < 60 && time.Now().Before(deadline) {
+		time.Sleep(time.Millisecond)
+	}
+	got := firsts.Load()
+	lg.add("[4]")
+	rn.Stop()
+	lg.add("[5]")
+	if got == 0 {
+		o.Fail("restart-lost", fmt.Sprintf("Restart was called (and returned) while invocation %d of the function was executing; %d further invocations later the runner still had not gone back to the first schedule", holdAt, after.Load()))
+	}
+	lg.mu.Lock()
+	evs := append([]string(nil), lg.evs...)
+	lg.mu.Unlock()
+	o.Count("script", "restart while the function executes")
+	o.Case("runner_trace_ok", []string{"2", kit.List(evs...)}, "T", "runner", "busy-restart", "nt")
 }
 
 func one(o *kit.Out, r *kit.Rand) {
@@ -56,6 +163,8 @@ func one(o *kit.Out, r *kit.Rand) {
 		freqIdx[f] = k
 	}
 	lg := &logT{}
+	installHooks(lg, nil)
+	defer hook.Set(nil)
 	fnDur := time.Duration(r.Range(0, 12)) * time.Millisecond
 	if slowLater {
 		fnDur = time.Duration(r.Range(2, 7)) * time.Millisecond // overruns the fast ticks, well below the slow period
